@@ -353,6 +353,17 @@ class OrderedMultiDict(dict, MutableMappingSequence):
     def copy(self):
         return type(self)(self)
 
+    def __reduce__(self):
+        # The default reduction of a dict subclass shares the private item
+        # list and replays the dict storage through __setitem__, which
+        # breaks copy.copy(), copy.deepcopy() and pickle.  Rebuild from
+        # the ordered pairs instead, and carry any other attributes along.
+        state = {
+            k: v for k, v in self.__dict__.items()
+            if k != "_OrderedMultiDict__items"
+        }
+        return type(self), (list(self.__items),), state or None
+
     def insert(self, index: int, *args) -> None:
         """Inserts at the index given by *index*.
 
